@@ -29,6 +29,8 @@ type Cfg struct {
 	AllowFailPct int
 	ContinuePct  int // percentage of pipelines with continue_running_tasks_after_failure
 	Retention    bool
+	Preload      bool     // jobs of an earlier run in the store (C12)
+	Logs         bool     // real FileOutputStore; the stand-in runner writes a log file per task
 	DiskStore    bool     // real JsonDataStore in a temporary directory behind the gate
 	RichPayload  bool     // job variables, users and error texts of every shape
 	ReloadKinds  []string // restricts the edit kinds of reloads (nil = all)
@@ -184,6 +186,10 @@ func GenPipeline(t *rapid.T, cfg *Cfg, tag string) definition.PipelineDef {
 		d.StartDelay = rapid.SampledFrom(LongDelays).Draw(t, "startDelay")
 	}
 	d.ContinueRunningTasksAfterFailure = pct(t, cfg.ContinuePct, "continue")
+	if cfg.Retention {
+		d.RetentionCount = rapid.SampledFrom(retentionCounts).Draw(t, "retentionCount")
+		d.RetentionPeriod = rapid.SampledFrom(retentionPeriods).Draw(t, "retentionPeriod")
+	}
 	if pct(t, 40, "pipeEnv") {
 		d.Env = map[string]string{"P_ENV": tag}
 	}
